@@ -44,6 +44,9 @@ fn divergent_constructs(sqls: &[String]) -> Vec<&'static str> {
     if my.contains("VALUES ()") {
         v.push("default-row");
     }
+    if my.contains('\\') || pg.contains("E'") {
+        v.push("text-literal-escapes");
+    }
     v
 }
 
@@ -150,10 +153,10 @@ pub fn run(ctx: &mut Ctx) {
     ctx.rule = "cases = statement specs from the portable subset: SELECT (DISTINCT, arithmetic / comparison / logical operators, CASE, IN, EXISTS, BETWEEN, COALESCE / IFNULL / GREATEST / LEAST / CHAR_LENGTH, inner / left joins, \
 derived tables, GROUP BY / HAVING, un-nested set operations, ORDER BY with NULLS FIRST/LAST and FIELD order, LIMIT / OFFSET, CTEs), INSERT VALUES / SELECT / default row, UPDATE, DELETE — over integer data. \
 Each is rendered for the three backends in both modes (six texts), transliterated lexically and executed on SQLite. Non-trivial = the statement returns or changes at least one row and exercises at least one lexically divergent construct \
-(MySQL NULLS emulation, set-operation parentheses, function substitution, VALUES ROW, default-row form); distinct by the pair of MySQL / Postgres texts."
+(MySQL NULLS emulation, set-operation parentheses, function substitution, VALUES ROW, default-row form, text literal with backslash escapes / E'' form); distinct by the pair of MySQL / Postgres texts."
         .into();
     ctx.assumptions.push("executing a transliteration on SQLite evaluates the structure (clauses, grouping, parenthesisation, emulations) the other backend produced; it says nothing about MySQL / Postgres run-time semantics of individual operators".into());
-    ctx.domain_restrictions.push("excluded as not portable: RETURNING, upsert, REPLACE, locks, RIGHT / FULL / CROSS joins, windows, division / modulo / shift / bit operators, LIKE, text and boolean values, custom operators and templates, ORDER BY / LIMIT on UPDATE / DELETE".into());
+    ctx.domain_restrictions.push("excluded as not portable: RETURNING, upsert, REPLACE, locks, RIGHT / FULL / CROSS joins, windows, division / modulo / shift / bit operators, LIKE, boolean values, text values other than whole select items, custom operators and templates, ORDER BY / LIMIT on UPDATE / DELETE".into());
     let n = ctx.tier.pick(150_000, 3_000_000);
     ctx.run_proptest("statements", n, &case_strategy, &check);
 }
